@@ -68,6 +68,7 @@ def tasks(tier, seed):
 
 run_task = lpchecks.analyse
 describe_task = lpchecks.describe_task
+task_cost = lpchecks.task_cost
 replay = lpchecks.replay_cex
 
 if __name__ == '__main__':
